@@ -2,6 +2,7 @@ package props
 
 import (
 	"fmt"
+	sfjson "github.com/elastic/go-structform/json"
 	"math"
 	"math/big"
 	"strings"
@@ -21,7 +22,15 @@ type C04Case struct {
 	Text    []byte `json:"text"`
 	Mutated bool   `json:"mutated,omitempty"` // the token sequence was structurally broken
 	Note    string `json:"note,omitempty"`
+	// Prev: texts handled FIRST by the same Parser instance (complete, invalid
+	// or — PrevWrite — fed through Write and abandoned); the text under test is
+	// then read by Parser.Parse on that instance and must still get its value
+	Prev      [][]byte `json:"prev,omitempty"`
+	PrevWrite []bool   `json:"prev_write,omitempty"`
 }
+
+// texts that leave a parser in every kind of intermediate or final state
+var c04PrevTexts = []string{"2.5", "1e3", "-0.0", "7", "-9223372036854775808", `"a\\"`, `"é\u00e9"`, "tru", "[0.", `{"a":`, `"abc`, "[1,2", `{"k":"v\`, "[[[", `"\ud83d`, "nul", "1e", "-", `{"a":1.5e`, "[true,", ` `, "", "null", `[1.5]`, `{"x":[2e2]}`}
 
 var jsonIntLits = []string{
 	"0", "-0", "1", "-1", "9223372036854775807", "9223372036854775808", "18446744073709551615", "18446744073709551616",
@@ -148,7 +157,29 @@ func checkC04(ci any, info *CaseInfo) string {
 		}
 	}
 	rec := &model.Recorder{}
-	o := guard(func() error { return codecs["json"].Parse(c.Text, rec) })
+	var o Outcome
+	if len(c.Prev) > 0 {
+		info.Class("reused_parser")
+		p := sfjson.NewParser(rec)
+		for i, prev := range c.Prev {
+			prev := prev
+			byWrite := i < len(c.PrevWrite) && c.PrevWrite[i]
+			po := guard(func() error {
+				if byWrite {
+					_, err := p.Write(prev)
+					return err
+				}
+				return p.Parse(prev)
+			})
+			if po.Panicked() {
+				return fmt.Sprintf("json parser panicked on the earlier text %q: %v\n%s", prev, po.Panic, po.Stack)
+			}
+		}
+		rec.Reset()
+		o = guard(func() error { return p.Parse(c.Text) })
+	} else {
+		o = guard(func() error { return codecs["json"].Parse(c.Text, rec) })
+	}
 	if o.Panicked() {
 		return fmt.Sprintf("json parser panicked on %q: %v\n%s", trunc(c.Text), o.Panic, o.Stack)
 	}
@@ -289,7 +320,7 @@ func mutateTokens(t *rapid.T, toks []ref.JSONTok) ([]ref.JSONTok, string) {
 func init() {
 	register(&Property{
 		ID:   "C04",
-		Rule: "rapid draws a value tree and renders it with the harness' grammar-based RFC 8259 text generator (whitespace SP/HT/LF/CR anywhere allowed, every escape spelling incl. \\uXXXX in both hex cases, surrogate pairs, lone surrogates, raw multi-byte UTF-8 after escapes, number literals with sign/fraction/exponent and 64-bit boundary integers, out-of-range literals); 1 in 4 cases breaks the token structure (drop/dup/replace/swap/insert a structural token, non-string key); oracle = encoding/json (Token+UseNumber) with the statement's number rule; non-trivial = text has an escape, a multi-byte rune, a container or a number literal longer than 2 bytes (mutations: the reference rejects the text and it is not a value stream); distinct by text hash",
+		Rule: "rapid draws a value tree and renders it with the harness' grammar-based RFC 8259 text generator (whitespace SP/HT/LF/CR anywhere allowed, every escape spelling incl. \\uXXXX in both hex cases, surrogate pairs, lone surrogates, raw multi-byte UTF-8 after escapes, number literals with sign/fraction/exponent and 64-bit boundary integers, out-of-range literals); 1 in 4 of the valid texts is read by Parser.Parse on an instance that handled 1..2 other texts first (complete, invalid, or written and abandoned midway); 1 in 4 cases breaks the token structure (drop/dup/replace/swap/insert a structural token, non-string key); oracle = encoding/json (Token+UseNumber) with the statement's number rule; non-trivial = text has an escape, a multi-byte rune, a container or a number literal longer than 2 bytes (mutations: the reference rejects the text and it is not a value stream); distinct by text hash",
 		New:  func() any { return &C04Case{} },
 		Draw: func(t *rapid.T) any {
 			v := gen.Value(t, gen.ValueCfg{IntRange: "json", ValidUTF8: true, Finite: true, Deep: true})
@@ -302,7 +333,14 @@ func init() {
 				return &C04Case{Text: text, Mutated: true, Note: note}
 			}
 			text, _ := ref.JoinJSON(e.Toks)
-			return &C04Case{Text: text}
+			c := &C04Case{Text: text}
+			if rapid.IntRange(0, 3).Draw(t, "reuse") == 0 {
+				for i, n := 0, rapid.IntRange(1, 2).Draw(t, "nprev"); i < n; i++ {
+					c.Prev = append(c.Prev, []byte(rapid.SampledFrom(c04PrevTexts).Draw(t, "prev")))
+					c.PrevWrite = append(c.PrevWrite, rapid.Bool().Draw(t, "prevwrite"))
+				}
+			}
+			return c
 		},
 		Check: checkC04,
 	})
